@@ -28,8 +28,8 @@ var none = V{"k": "NONE"}
 
 // State is the caller-side state of the session machine (spec/Codec.tla).
 type State struct {
-	Pk    map[int]any // rtcp.Packet or []rtcp.Packet
-	Buf   map[int][]byte
+	Pk  map[int]any // rtcp.Packet or []rtcp.Packet
+	Buf map[int][]byte
 	// spare[h]: spare-capacity regions behind the byte slices of the packet built
 	// under h; in[h]/orig[h]: the buffer the packet under h was decoded from (the
 	// library may alias it) and a pristine copy
@@ -422,7 +422,9 @@ func decodeEvent(op string, entry string, b, h int, in, orig []byte, pan bool, m
 // rtcp.Unmarshal on the same buffer (used for the CompoundPacket cross-check).
 func (s *State) Unmarshal(entry string, b, h int) V { return s.UnmarshalRef(entry, b, h, 0) }
 
-func (s *State) UnmarshalRef(entry string, b, h, dh int) V { return s.UnmarshalFull(entry, b, h, dh, 0, 0) }
+func (s *State) UnmarshalRef(entry string, b, h, dh int) V {
+	return s.UnmarshalFull(entry, b, h, dh, 0, 0)
+}
 
 // UnmarshalFull: eqh, when non-zero, names a handle whose packet this result
 // is expected to equal (same bytes up to the declared length, C13).
@@ -688,4 +690,22 @@ func (s *State) Weight(h int) int {
 		return 1
 	}
 	return count(absAny(s.Pk[h]))
+}
+
+// Pick builds, under handle dst, a list made of packets of the list under src (the same objects, in the
+// order given by idx; indexes are 0-based and may repeat), as a caller recombining decoded packets does.
+func (s *State) Pick(src, dst int, idx []int) V {
+	ps, _ := s.Pk[src].([]rtcp.Packet)
+	var out []rtcp.Packet
+	il := make(L, 0, len(idx))
+	for _, i := range idx {
+		if i >= 0 && i < len(ps) {
+			out = append(out, ps[i])
+			il = append(il, i+1)
+		}
+	}
+	s.Pk[dst] = out
+	delete(s.spare, dst)
+	delete(s.in, dst)
+	return s.emit(V{"op": "pick", "h": dst, "src": src, "idx": il})
 }
